@@ -912,6 +912,8 @@ def ig_check(spec, root):
 DYN_STEPS = 16
 DYN_TIME = 2.0
 DYN_RAW_Q = ("linear", "peaks_1", "cornejo_maceda", "linear_3")
+DYN_RAW_SKIP = ("lorenz_cubic", )
+DYN_SUR_SKIP = "3oscillators"
 
 
 def dyn_rebuild(o):
@@ -1165,8 +1167,10 @@ def check_member(spec, root):
 
 def job(a):
     """Worker: a list of members (+ the directory clause for bin packing)."""
+    import time
     jid, specs, root = a
     jroot = os.path.join(root, f"job{jid}")
+    t0 = time.process_time()
     out = {"runs": 0, "members": 0, "improved": 0, "viol": [], "flaky": [],
            "samples": [], "fam": specs[0]["family"], "dir_checks": 0,
            "dir_results": 0, "status": {}}
@@ -1201,6 +1205,7 @@ def job(a):
                                          }))
     finally:
         shutil.rmtree(jroot, ignore_errors=True)
+    out["cpu_s"] = round(time.process_time() - t0, 2)
     return out
 
 
@@ -1354,26 +1359,39 @@ def product(ctx):
     for idx, nm in enumerate(names):
         if q and not any(nm.endswith("_" + k) for k in DYN_RAW_Q):
             continue
+        if nm in DYN_RAW_SKIP:
+            ctx.cap(f"controller synthesis (raw): instance {nm} is not "
+                    "executed, one 17-FE member costs about 17 CPU-minutes "
+                    "(diverging simulations)")
+            continue
         for s in seeds_for(nm):
-            jobs.append([{"family": "dyn_raw", "idx": idx, "inst": nm,
-                          "seed": s, "budget": b} for b in budgets])
+            for b in budgets:
+                jobs.append([{"family": "dyn_raw", "idx": idx, "inst": nm,
+                              "seed": s, "budget": b}])
     if not q:
         names = dyn_names("sur")
-        first = {}
+        skipped = set()
         for idx, nm in enumerate(names):
-            first.setdefault(nm.split("_ann_")[0], idx)
-        for idx in sorted(first.values()):
+            if nm.startswith(DYN_SUR_SKIP):
+                skipped.add(nm)
+                continue
             for su in ("cmaes_raw", "cmaes_surrogate"):
-                for s in seeds_for(names[idx]):
-                    jobs.append([{"family": "dyn_sur", "setup": su,
-                                  "idx": idx, "inst": names[idx], "seed": s,
-                                  "budget": b} for b in budgets])
+                for s in seeds_for(nm):
+                    for b in budgets:
+                        jobs.append([{"family": "dyn_sur", "setup": su,
+                                      "idx": idx, "inst": nm, "seed": s,
+                                      "budget": b}])
+        ctx.cap(f"controller synthesis (surrogate module): the "
+                f"{len(skipped)} instances on the three-coupled-oscillators "
+                "system are not executed, one member costs 10-15 "
+                "CPU-minutes (diverging simulations on the learned model)")
     return jobs
 
 
 def weight(specs):
     f = specs[0]["family"]
-    return {"dyn_sur": 100, "dyn_raw": 30, "bp": 3}.get(f, 1) * len(specs)
+    w = {"dyn_sur": 100, "dyn_raw": 30, "bp": 3}.get(f, 1) * len(specs)
+    return w * (specs[0]["budget"] if f.startswith("dyn") else 1)
 
 
 def pool_map(fn, items, jobs, limit_s=5400):
@@ -1448,6 +1466,7 @@ def run(ctx: Ctx) -> None:
                  members_with_an_improvement_after_FE_1=o["improved"],
                  directories_parsed=o["dir_checks"],
                  results_from_directories=o["dir_results"],
+                 cpu_s=o.get("cpu_s", 0.0),
                  **{"status_" + k: v for k, v in o["status"].items()})
         for s in o["samples"]:
             ctx.sample(s, 14)
@@ -1459,6 +1478,12 @@ def run(ctx: Ctx) -> None:
     if flaky and not ctx.violations and not ctx.known_hits:
         raise HarnessError("failing members did not fail identically when "
                            "re-executed: " + "; ".join(flaky[:3]))
+    if ctx.quick:
+        ctx.cap("quick tier: the sub-product with 3 of 9 bin packing, 6 of 9 "
+                "TSP, 2 of 5 TTP, 2 of 5 QAP instances, 4 of 8 instance "
+                "generation problems, 8 of 39 raw controller synthesis "
+                "instances and no surrogate-module setups; all setups, "
+                "seeds and budgets")
     ctx.cov["distinct_nontrivial"] = improved
     ctx.cov["rule"] = (
         "full product setup x instance x seed {1, 2^63, "
